@@ -123,6 +123,38 @@ def stop_cases(thorough):
                             yield cfg, setup + [("stop", sid), ("adv", 0.1), ("tx",)] + after + attack
 
 
+def final_size_cases(thorough):
+    """final size known (by an in-order FIN, by a FIN with a gap before it, or by RESET_STREAM), reassembly buffer
+    empty, then STREAM frames starting EXACTLY at the delivered offset: length 0 / 1 / 2, with / without FIN, ending
+    below / at / above the final size; the stream is still held (bidirectional, send half open), with and without a
+    write loop in between.  FINAL_SIZE_ERROR iff beyond the final size or a FIN elsewhere."""
+    for cl in (True, False):
+        pb, pun, mb, mu = ids_of(cl)
+        cfg = {"seed": 11, "e_is_client": cl, "e_opts": {"max_data": 40, "max_stream_data": 20}, "e_streams": (3, 3),
+               "p_opts": {"max_data": 10 ** 7, "max_stream_data": 10 ** 7}}
+        for name, sid, setup in (("peer-bidi", pb(0), []), ("own-bidi", mb(0), [("send", mb(0), 1, False), ("adv", 0.1), ("tx",)]),
+                                 ("peer-uni", pun(0), [])):
+            knowns = []
+            for k in (0, 1, 2):          # delivered offset
+                if k:
+                    knowns.append((k, k, [("pstream", sid, 0, k, True)]))                                 # in-order FIN
+                for z in (k, k + 1, k + 2, k + 3):
+                    data = [("pstream", sid, 0, k, False)] if k else []
+                    knowns.append((k, z, data + [("preset", sid, z)]))                                    # RESET_STREAM
+                    if z > k + 1 and (thorough or k < 2):
+                        knowns.append((k, z, data + [("pstream", sid, z - 1, 1, True)]))                  # FIN behind a gap
+            for (k, z, known) in knowns:
+                for ln in (0, 1, 2):
+                    for fin in (False, True):
+                        if not thorough and name != "peer-bidi" and (ln + k + z + fin) % 2:
+                            continue
+                        probe = [("pstream", sid, k, ln, fin)]
+                        yield cfg, setup + known + probe
+                        if thorough or (name == "peer-bidi" and ln == 1):
+                            yield cfg, setup + known + [("adv", 0.1), ("tx",)] + probe
+                            yield cfg, setup + known + probe + probe                                    # duplicated
+
+
 def reset_cases(thorough):
     """RESET_STREAM x late / duplicated STREAM data x retransmitted RESET_STREAM, final size above the offset
     received so far, connection limit at the boundary (shape of the `resetKeepsHighest` counterexample): the
@@ -334,6 +366,7 @@ def evaluate(ctx, name, cfg, script, res, cases, impl_outs, qcases, qouts):
             ctx.notes.setdefault("unexpected_exceptions", []).append(f"{ex[0]}: {ex[1]!r}"[:200])
     cases.append(pu.obs.lines)
     impl_outs.append(pu.obs.outs)
+    ctx.__dict__.setdefault("flow_inputs", {})[id(pu.obs.lines)] = (cfg, script)
     if res.get("qo") is not None:
         qcases.append(res["qo"].lines)
         qouts.append(res["qo"].outs)
@@ -365,9 +398,12 @@ def main(tier):
     ctx.assumptions = [
         "frames reach the handlers parsed (offset + length <= 2^62-1 is checked by the handler itself and is modelled)",
         "frames for a stream whose state was discarded after both halves finished are ignored by the code "
-        "(StreamFinishedError): neither accusation nor buffering; the oracle does not demand an error there, but it decides "
-        "by itself (FIN reached with all bytes sent, or RESET_STREAM accepted) whether the receive half is complete - "
-        "stop_stream() / STOP_SENDING alone never lifts a limit (discard_only_when_receive_finished)",
+        "(StreamFinishedError): neither accusation nor buffering.  The oracle decides by itself, from the frames on the wire, "
+        "whether the stream MAY have been discarded: receive half complete (FIN reached with all bytes sent, or RESET_STREAM "
+        "accepted) AND send half possibly finished (receive-only stream, or FIN / RESET_STREAM written / STOP_SENDING received "
+        "on a bidirectional one) AND a write loop ran since; only then is 'ignored' accepted besides the matching error code. "
+        "On every other stream - also one whose receive half is complete - every limit and the final-size rule are judged "
+        "strictly; stop_stream() / STOP_SENDING alone never lifts a limit (discard_only_when_receive_finished)",
         "FINAL_SIZE_ERROR is the stream receiver's condition (a final size below data already received is accepted, "
         "RFC 9000 section 4.5 observation, not part of C07)",
         "retirement bound: min(4*active_connection_id_limit, 100) plus RETIRE_CONNECTION_ID frames in flight that are re-queued on loss, "
@@ -378,9 +414,12 @@ def main(tier):
     cases, impl_outs, qcases, qouts = [], [], [], []
 
     def search():
-        """failing-input search (a correspondence / obligation broke, no witness yet): the directed generators in
-        their thorough form, every pair of boundary frames unstrided, PRNG histories biased to a full
-        congestion window and to RESET_STREAM with late data - until the wire oracle gives a concrete witness"""
+        """failing-input search (a correspondence / obligation broke, no witness yet).  Order: (0) the inputs on which
+        model and implementation DISAGREED, transformed so that the wire oracle must judge every frame (the same
+        history on a bidirectional peer stream whose send half stays open: such a stream cannot have been discarded,
+        no frame may be ignored; also cut after the disagreeing step); (1) the directed generators in thorough form;
+        (2) every pair of boundary frames unstrided; (3) PRNG histories biased to a full congestion window and to
+        RESET_STREAM with late data.  Stops at the first concrete witness, 60 s at most."""
         import time
         t0 = time.time()
         sink = ([], [], [], [])
@@ -388,9 +427,28 @@ def main(tier):
         def tryit(name, cfg, script):
             res = fc.run_puppet(cfg, script)
             evaluate(ctx, name, cfg, script, res, *sink)
-            return bool(ctx.witnesses) or time.time() - t0 > 240
+            return bool(ctx.witnesses) or time.time() - t0 > 60
 
-        for gen in (reset_cases, builder_stop_cases, stop_cases, id_frame_cases):
+        def held(cfg, script):
+            """the same frames on peer bidirectional streams, without FIN / reset / stop of the endpoint's send half"""
+            cl = cfg.get("e_is_client", True)
+            pb, pun, mb, mu = ids_of(cl)
+            top = 1 + max([a[1] // 4 for a in script if len(a) > 1 and isinstance(a[1], int)] + [0])
+
+            def remap(a):
+                if a[0] == "pmulti":
+                    return ("pmulti", [remap(tuple(x)) for x in a[1]])
+                if a[0] in ("pstream", "preset", "psdb", "pss", "pmd") and a[1] % 4 == pun(0) % 4 and a[1] // 4 < 1000:
+                    return (a[0], pb(a[1] // 4 + top)) + tuple(a[2:])
+                return a
+            out = [remap(tuple(a)) for a in script if a[0] not in ("reset", "pss", "pstop")]
+            return [(a[0], a[1], a[2], False) if a[0] == "send" else a for a in out]
+
+        for cfg, script in getattr(ctx, "disagreeing_inputs", [])[:200]:
+            for variant in (held(cfg, script), script):
+                if tryit("search-disagreeing", cfg, variant):
+                    return
+        for gen in (final_size_cases, reset_cases, builder_stop_cases, stop_cases, id_frame_cases):
             for cfg, script in gen(True):
                 if tryit("search", cfg, script):
                     return
@@ -431,7 +489,7 @@ def main(tier):
     # 1b. every frame type naming a stream id x stream-count limits; stop_stream() then frames beyond the limits
     # 1c. RESET_STREAM x late / duplicated data; limit raises while the packet builder refuses the frame
     for name, gen in (("stream-ids", id_frame_cases), ("stop", stop_cases), ("reset-late-data", reset_cases),
-                      ("builder-stop", builder_stop_cases)):
+                      ("builder-stop", builder_stop_cases), ("final-size", final_size_cases)):
         cases, impl_outs = [], []
         for cfg, script in gen(thorough):
             res = fc.run_puppet(cfg, script)
@@ -479,7 +537,9 @@ def main(tier):
         "raised, with the rest of the connection limit used by another stream: the bytes count once, limit + 1 is still refused); "
         "a MAX_DATA / MAX_STREAMS raise that is due while the congestion window is full (the builder refuses the frame), then the "
         "peer probes advertised and advertised + 1 (data, final size, new stream, STREAM_DATA_BLOCKED), and the doubled value once "
-        "the frame was written; (2) PRNG histories of such frames interleaved with the endpoint raising its limits "
+        "the frame was written; final size known by in-order FIN / FIN behind a gap / RESET_STREAM with an empty reassembly "
+        "buffer, then STREAM frames starting exactly at the delivered offset, length 0/1/2, with/without FIN, ending below / at / "
+        "above the final size, on held streams, with and without a write loop in between, duplicated; (2) PRNG histories of such frames interleaved with the endpoint raising its limits "
         "(MAX_* observed on the wire), loss of the packets carrying MAX_*, a full congestion window (MAX_* cannot be "
         "written), application writes/stops; (3) CRYPTO frames around MAX_PENDING_CRYPTO, PATH_CHALLENGE bursts, "
         "NEW_CONNECTION_ID / retire-prior-to sequences. Non-trivial = a history with a frame accepted within limits and a "
